@@ -61,7 +61,7 @@ def gen_cases(tier, seed):
     rng = rng_for(PROPERTY, seed)
     n = 640 if tier == "quick" else 25000
     out = []
-    kinds = ["antenna-threshold", "antenna-trivial", "dipole", "system-identity", "system-gain", "system-delay", "system-delay", "antenna-threshold", "system-odd-lead-in"]
+    kinds = ["antenna-threshold", "antenna-trivial", "dipole", "system-identity", "system-gain", "system-delay", "system-delay", "antenna-threshold", "system-odd-lead-in", "system-long-lead-in", "system-long-lead-in"]
     for i in range(n):
         kind = kinds[i % len(kinds)]
         out.append({"cls": kind + (":noisy" if (i // len(kinds)) % 2 else ":noiseless"), "kind": kind, "noisy": bool((i // len(kinds)) % 2),
@@ -133,6 +133,12 @@ def run_case(case):
         nd, gain = case["nd"], case["gain"]
         lead = 25e-9
         obj = FrontSys(base, nd, gain, lead)
+    elif kind == "system-long-lead-in":
+        # lead-in (120 ns) longer than any received signal (8-20 ns) and a front end that remembers up to 95 ns: a later, disjoint
+        # signal inside another waveform's lead-in window changes that waveform
+        nd, gain = 5 * case["nd"], case["gain"]
+        lead = 120e-9
+        obj = FrontSys(base, nd, gain, lead)
     elif kind == "system-odd-lead-in":
         # lead-in that is not a whole number of samples; the front end remembers nd whole samples (< lead-in)
         nd, gain = case["nd"] % 8, case["gain"]
@@ -193,11 +199,31 @@ def run_case(case):
 
     last_query, seen_q_r = False, False
     for stepi in range(case["nops"]):
-        op = str(rng.choice(["receive", "receive", "receive", "signals", "all", "waves", "is_hit", "mc_truth", "full", "during", "noise", "clear", "clear_reset"]))
+        op = str(rng.choice(["receive", "receive", "receive", "receive_refused", "signals", "all", "waves", "is_hit", "mc_truth", "full", "during", "noise", "clear", "clear_reset"]))
         log.append(op)
         try:
+            if op == "receive_refused":
+                # two polarization components on different grids (cannot be added) / fewer polarizations than signals: refused,
+                # and nothing of the refused call may stay behind
+                n_ = int(rng.integers(10, 40))
+                i_ = int(rng.integers(-50, 150)) + 400
+                sA = Signal(master[i_:i_ + n_].copy(), rng.normal(size=n_) + 2.0, "voltage")
+                sB = Signal(master[i_ + 3:i_ + 3 + n_].copy(), rng.normal(size=n_) + 2.0, "voltage")
+                n_before = len(base.signals)
+                variant = int(rng.integers(0, 2))
+                try:
+                    if variant == 0:
+                        obj.receive([sA, sB], direction=(1.0, 0.0, 0.0), polarization=[(0.0, 0.0, 1.0), (0.0, 0.0, 1.0)])
+                    else:
+                        obj.receive([sA, sA], direction=(1.0, 0.0, 0.0), polarization=[(0.0, 0.0, 1.0)])
+                    v.check(False, "a receive call that cannot be carried out is refused", variant=["components on different grids", "fewer polarizations than signals"][variant], history=log[-6:])
+                except ValueError:
+                    pass
+                v.check(len(base.signals) == n_before, "a refused receive leaves no signal behind", before=n_before, after=len(base.signals), variant=["components on different grids", "fewer polarizations than signals"][variant], history=log[-6:])
+                log[-1] = "receive refused (%s)" % ["different grids", "polarization count"][variant]
+                continue
             if op == "receive":
-                n = int(rng.integers(20, 80))
+                n = int(rng.integers(20, 80)) if kind != "system-long-lead-in" else int(rng.integers(8, 21))
                 t0 = int(rng.integers(-50, 150)) * dt
                 sdt = dt if rng.random() < 0.8 else float(rng.choice([0.5e-9, 2e-9]))
                 if nd and sdt > dt:
@@ -209,6 +235,12 @@ def run_case(case):
                         tt_ = model[int(rng.integers(0, len(model)))][0]
                         j_ = int(round(tt_[-1] / dt)) + 400 if rng.random() < 0.5 else int(round(tt_[0] / dt)) + 400 - (n - 1)
                         if 0 <= j_ and j_ + n <= len(master) and abs(tt_[1] - tt_[0] - dt) < 1e-15:
+                            i0 = j_
+                    if kind == "system-long-lead-in" and model and rng.random() < 0.8:
+                        # disjoint from an earlier signal, but exactly one front-end delay before it: it reaches that signal's waveform
+                        tt_ = model[int(rng.integers(0, len(model)))][0]
+                        j_ = int(round(tt_[0] / dt)) + 400 - nd + int(rng.integers(-n // 2, len(tt_) // 2 + 1))
+                        if 0 <= j_ and j_ + n <= len(master):
                             i0 = j_
                     grid = master[i0:i0 + n].copy()
                 else:
